@@ -42,7 +42,9 @@ def gen(rng):
         L = max(0, min(L, 300))
         # lengths around the multiples of 256 and the powers of two (a length or a remaining-space computation narrowed to 8 or 16 bits), also just
         # what still fits the small buffer modulo 256
-        if rng.random() < 0.12: L = rng.choice([255, 256, 257, 256 + max(room, 0), 256 + max(room, 0) + 1, 300, 319, 320, 511, 512, 513, 575, 1023, 1024, 4095, 4096, 65535, 65536, 65536 + max(room, 0)])
+        if rng.random() < 0.12:
+            L = rng.choice([255, 256, 257, 256 + max(room, 0), 256 + max(room, 0) + 1, 300, 319, 320, 511, 512, 513, 575, 1023, 1024])
+            if rng.random() < 0.08: L = rng.choice([4095, 4096, 65535, 65536, 65536 + max(room, 0)])      # the 16-bit boundary: rare, each costs 64k characters in harness and model
         s = bytes(rng.choice(b"abcdefgh-_ 12%") for _ in range(L)).replace(b"%", b"q")
         k = rng.random()
         if k < 0.25: ops.append("a:" + hexs(s)); used += L
@@ -61,7 +63,7 @@ def gen(rng):
             ops.append("g:%s:%d" % (hexs(pre), x)); used += len(pre) + len(str(x))
         elif k < 0.88: ops.append("p:" + hexs(s[:10])); used += min(10, L)
         elif k < 0.96:
-            nsz = rng.choice([0, 1, used, max(used - 1, 0), used + 1, 63, 64, cap, max(cap - 1, 0), used + 256, 256, 300, 512, used + 65536])
+            nsz = rng.choice([0, 1, used, max(used - 1, 0), used + 1, 63, 64, cap, max(cap - 1, 0), used + 256, 256, 300, 512] + ([used + 65536] if rng.random() < 0.1 else []))
             ops.append("r:%d:%d" % (nsz, rng.choice(b"x_"))); used = nsz
         else: ops.append("k"); used = 0
     return {"kind": kind, "p": (hexs(init) if kind == 1 else str(cap)), "ops": ops}
